@@ -90,6 +90,8 @@ impl InnerWalWriter {
 
         self.file = Some(writer);
         self.entries_written = Self::count_entries(&self.dir);
+        #[cfg(sneldb_verif)]
+        crate::verif_hooks::vpd("wal_file_started", &self.current_log_id.to_string());
         Ok(())
     }
 
